@@ -254,11 +254,15 @@ class AQTSampler(cirq.Sampler):
 
         seq_list: list[tuple[str, float, list[int]] | tuple[str, float, float, list[int]]] = []
         circuit = cirq.resolve_parameters(circuit, param_resolver)
+        if not circuit.are_all_measurements_terminal():
+            raise ValueError('Measurements must be at the end of the circuit.')
         for op in circuit.all_operations():
             line_qubit = cast(tuple[cirq.LineQubit], op.qubits)
             op = cast(cirq.GateOperation, op)
             qubit_idx = [obj.x for obj in line_qubit]
             op_str = get_op_string(op)
+            if op_str == OperationString.MEASURE.value:
+                continue  # all qubits are measured at the end of the circuit
             gate: cirq.EigenGate | cirq.PhasedXPowGate
             if op_str == 'R':
                 gate = cast(cirq.PhasedXPowGate, op.gate)
